@@ -66,6 +66,7 @@ COMBINATORS = {
     'std::option::Option::<T>::map': (OPT, 'map'), 'std::option::Option::<T>::and_then': (OPT, 'and_then'), 'std::option::Option::<T>::filter': (OPT, 'filter'),
     'std::option::Option::<T>::is_some_and': (OPT, 'is_some_and'), 'std::option::Option::<T>::is_none_or': (OPT, 'is_none_or'),
     'std::option::Option::<T>::unwrap_or_else': (OPT, 'unwrap_or_else'), 'std::option::Option::<T>::map_or': (OPT, 'map_or'),
+    'std::option::Option::<T>::or_else': (OPT, 'or_else'),
     'std::result::Result::<T, E>::unwrap_or_else': (RES, 'unwrap_or_else'), 'std::result::Result::<T, E>::map': (RES, 'map'),
     'std::result::Result::<T, E>::map_err': (RES, 'map_err'), 'std::result::Result::<T, E>::and_then': (RES, 'and_then'),
     'core::bool::<impl bool>::then': (None, 'then'),
@@ -174,6 +175,50 @@ def _expand_closure(w, B, cb, closure_local, arg_ops, result_place, target, stac
     return entry, list(range(boff, len(j['blocks'])))
 
 
+def _desugar_map_ctor(w, j, bi, fam, fop, stack):
+    """opt.map(Enum::Variant)  =>  match opt { Some(x) => Some(Enum::Variant(x)), None => None }"""
+    from tyutil import adt_lookup
+    blk = j['blocks'][bi]
+    t = blk['term']
+    cid = fop['fn']['def']['id']
+    vpath = fop['fn']['def']['path']
+    adt_id = cid.rsplit('::', 2)[0]
+    vname = vpath.rsplit('::', 1)[-1]
+    adt = adt_lookup(w, adt_id)
+    if adt is None:
+        return None
+    idx = [v['idx'] if 'idx' in v else i for i, v in enumerate(adt['variants']) if v['name'] == vname]
+    if len(idx) != 1:
+        return None
+    recv = t['args'][0]
+    B = _Builder(j, t['span'], stack)
+    n0 = len(j['blocks'])
+    dest, target = t['dest'], t['target']
+    rl = recv['p']['l']
+    rty = j['locals'][rl]['ty']
+    targs = rty.get('args') or []
+    pos_ty = targs[0] if targs else {'s': '?'}
+    neg_ty = targs[1] if len(targs) > 1 else {'s': '?'}
+    dty = j['locals'][dest['l']]['ty'] if not dest['proj'] else {'s': '?'}
+    dargs = (dty.get('args') or []) if isinstance(dty, dict) else []
+    d = B.local({'k': 'int', 'n': 'isize', 's': 'isize'})
+    blk['stmts'].append(B.assign(_pl(d), {'r': 'discr', 'p': _pl(rl)}))
+    x = B.local(pos_ty)
+    inner = B.local(dargs[0] if dargs else {'s': '?'})
+    ctor = {'r': 'agg', 'ak': 'adt', 'adt': adt_id, 'path': adt.get('path', vpath.rsplit('::', 1)[0]), 'variant': idx[0], 'vname': vname, 'ops': [_mv(x)], 'args': []}
+    pos_b = B.block([B.assign(_pl(x), _use(_payload(rl, fam, 'pos', pos_ty))), B.assign(_pl(inner), ctor),
+                     B.assign(copy.deepcopy(dest), _variant_agg(fam, 'pos', [_mv(inner)], dargs))], B.goto(target))
+    if fam is OPT:
+        neg_b = B.block([B.assign(copy.deepcopy(dest), _variant_agg(OPT, 'neg', [], dargs))], B.goto(target))
+    else:
+        e = B.local(neg_ty)
+        neg_b = B.block([B.assign(_pl(e), _use(_payload(rl, fam, 'neg', neg_ty))), B.assign(copy.deepcopy(dest), _variant_agg(RES, 'neg', [_mv(e)], dargs))], B.goto(target))
+    unreach = B.block()
+    blk['term'] = {'t': 'switch', 'discr': _mv(d), 'discr_ty': 'isize', 'targets': [[fam['neg'][0], neg_b], [fam['pos'][0], pos_b]], 'otherwise': unreach, 'span': t['span'],
+                   'desugared': callee_path(t)}
+    return list(range(n0, len(j['blocks'])))
+
+
 def _desugar(w, j, bi, stack):
     """rewrite the combinator call ending block bi; returns the list of new block indices (None when not applicable)"""
     blk = j['blocks'][bi]
@@ -188,6 +233,8 @@ def _desugar(w, j, bi, stack):
         return None
     fop = args[2] if kind == 'map_or' else args[1]
     cb, cl = _closure_of_operand(w, j, fop)
+    if cb is None and kind == 'map' and fop.get('o') == 'const' and 'fn' in fop and '{constructor#' in fop['fn']['def']['id']:
+        return _desugar_map_ctor(w, j, bi, fam, fop, stack)
     if cb is None or cb.id in stack or len(stack) >= 4:
         return None
     B = _Builder(j, t['span'], stack)
@@ -261,6 +308,11 @@ def _desugar(w, j, bi, stack):
         pos_b = entry
         neg_b = finish([B.assign(copy.deepcopy(dest), _use({'o': 'const', 'ty': {'k': 'bool', 's': 'bool'}, 's': 'true' if kind == 'is_none_or' else 'false',
                                                                'int': 1 if kind == 'is_none_or' else 0}))])
+    elif kind == 'or_else':
+        # Some(x) => Some(x), None => f()
+        pos_b = finish([bind_pos, B.assign(copy.deepcopy(dest), _variant_agg(OPT, 'pos', [_mv(x)], dargs))])
+        entry, new = _expand_closure(w, B, cb, cl, [], copy.deepcopy(dest), target, stack)
+        neg_b = entry
     elif kind == 'unwrap_or_else':
         pos_b = finish([bind_pos, B.assign(copy.deepcopy(dest), _use(_mv(x)))])
         if fam is OPT:
